@@ -13,13 +13,17 @@ func lcp(a, b []byte) []byte {
 		return lcp(b, a)
 	}
 
+	// The capacity of the result is limited to its length: the result becomes
+	// the key of an extension node (see batch.go), and appending to such a key
+	// (getWithPath, Billet.traverse, mergeExtension, deleteFromExtension) must
+	// never write into the array it was cut from, which other node keys alias.
 	for i := range b {
 		if a[i] != b[i] {
-			return b[:i]
+			return b[:i:i]
 		}
 	}
 
-	return b
+	return b[:len(b):len(b)]
 }
 
 func lcpMany(kv []keyValue) []byte {
